@@ -4,7 +4,15 @@ use crate::proto::*;
 use scad_tree::prelude::*;
 
 /// f64 as bit pattern plus the text Rust's `Display` prints for it
+pub static PLAIN: std::sync::atomic::AtomicBool = std::sync::atomic::AtomicBool::new(false);
+/// dump numbers without their display text (trees compared structurally, C14..C18)
+pub fn set_plain(on: bool) {
+    PLAIN.store(on, std::sync::atomic::Ordering::Relaxed);
+}
 pub fn tn(x: f64) -> String {
+    if PLAIN.load(std::sync::atomic::Ordering::Relaxed) {
+        return tf(x);
+    }
     format!("{} {}", tf(x), ts(&format!("{}", x)))
 }
 fn ton(x: &Option<f64>) -> String {
